@@ -471,7 +471,9 @@ func (ei *resourceInformer) start() {
 	go func() {
 		if ei.ctx != nil {
 			<-ei.ctx.Done()
+			verifsched.Point("informer.cleanup", "cleanup/"+ei.Monitor.Metadata.MonitorId)
 			DefaultFactoryStore.Stop(ei.id, ei.FactoryIndex)
+			verifsched.Point("informer.cleanup.done", "cleanup-done/"+ei.Monitor.Metadata.MonitorId)
 		}
 	}()
 
